@@ -20,6 +20,18 @@ CHECKS = {
         note="statements a dialect refuses to parse are outside the space; violations whose tag set strictly contains another "
              "violation's tag set in the same dialect are counted but not reported separately. " + TRUST,
         design="2/C01"),
+    "C13": dict(
+        category="exploration", engine="E1",
+        technique="exhaustive enumeration of all short character strings and lexeme sequences per dialect; positions re-derived independently from the raw text",
+        text="Every character string of length <= 4 (thorough 5) over a per-dialect position-adversarial alphabet (blank, tab, LF, CR, "
+             "multi-byte characters, every string/identifier delimiter, comment markers, number characters) is tokenized in all 34 "
+             "dialects; every sequence of <= 3 lexemes from a ~35-entry menu (multi-word keywords split by blanks/newlines, numbers of "
+             "every form, strings with doubled quotes / escapes / embedded newlines, comments, command tails) joined by every separator; "
+             "every single-token deletion/duplication of G_core statements for ParseError entries; identifier position meta. Token "
+             "spans must be in range, ordered, non-overlapping, separated only by whitespace/comments (independent gap scanner), "
+             "line/col must equal an independent line/column reference at the token's last offset, and the span must select the lexeme.",
+        note="inputs with a lone CR are judged on offsets only; token line/col describe the token's last character. " + TRUST,
+        design="2/C13"),
     "C18": dict(
         category="model_checking", engine="E2",
         technique="explicit-state BFS over operation histories on the real MappingSchema, reference-model agreement on every transition",
